@@ -153,8 +153,15 @@ def overdue (st : St) (t : Nat) : St × Option String :=
   match st.expects.find? (fun e => decide (e.deadline < t)) with
   | none => (st, none)
   | some e =>
+    -- the sequential reporter may have been busy with a report to another subscriber all the time
+    let blocked : Option (Nat × Nat) := match st.reporting, st.begun with
+      | some r, some (bid, tb) => if r.id == bid && r.peer != 100 + e.who && decide (tb ≤ e.deadline) then some (bid, tb) else none
+      | _, _ => none
+    let why := match blocked with
+      | some (bid, tb) => s!" (the reporter is blocked in a report to subscription {bid} of another subscriber since {tb})"
+      | none => ""
     ({ st with expects := st.expects.filter (fun x => !(x.who == e.who && x.sid == e.sid)) },
-     some s!"subscriber {e.who} got no report for subscription {e.sid} within the maximum interval of {e.maxInt} s: the last one at {e.since}, nothing until {t} although the path was clean")
+     some s!"subscriber {e.who} got no report for subscription {e.sid} within the maximum interval of {e.maxInt} s: the last one at {e.since}, nothing until {t} although the path was clean{why}")
 
 /-- the instant the maximum interval of a subscription is measured from: its last successful report,
 for a resumed subscription that was not primed yet the restart (its last success cannot be later) -/
